@@ -914,13 +914,17 @@ fn main() {
             for m in notes { writeln!(w, "X colls parts case :: {m}").unwrap(); }
         }
         if case % 10 == 7 {
-            for m in misc_probe(&mut r) { writeln!(w, "X colls misc probe :: {m}").unwrap(); }
+            let ms = misc_probe(&mut r);
+            for k in gaps::take_lines() { writeln!(w, "{k}").unwrap(); }
+            for m in ms { writeln!(w, "X colls misc probe :: {m}").unwrap(); }
         }
         if case % 20 == 13 {
             for m in traits_probe(&mut r) { writeln!(w, "X colls traits probe :: {m}").unwrap(); }
         }
         if case % 20 == 3 {
-            for m in flatten_probe(&mut r) { writeln!(w, "X colls flatten probe :: {m}").unwrap(); }
+            let ms = flatten_probe(&mut r);
+            for k in gaps::take_lines() { writeln!(w, "{k}").unwrap(); }
+            for m in ms { writeln!(w, "X colls flatten probe :: {m}").unwrap(); }
         }
         if case % 20 == 17 {
             for m in wrappers_probe(&mut r) { writeln!(w, "X colls wrappers probe :: {m}").unwrap(); }
